@@ -33,12 +33,14 @@ func (p *Pool) state(w *World) {
 	if p.gen != w.gen {
 		p.gen = w.gen
 		p.items = p.items[:0]
+		// index = order of first use inside this world (a function of the run only)
+		p.idx = w.poolCount
+		w.poolCount++
 	}
 	if !p.reg {
 		p.reg = true
 		if regPoolN < maxRegisteredPools {
 			regPools[regPoolN] = p
-			p.idx = uint32(regPoolN)
 			regPoolN++
 		}
 	}
